@@ -340,19 +340,24 @@ class Reaction:
         new = self.copy()
         if reactant is None:
             if new._phases:
-                _, reactants_index = new._stoichiometry.positive_index()
+                phases_index, reactants_index = new._stoichiometry.positive_index()
                 N_reactants = len(reactants_index)
                 if N_reactants == 1:
-                    new._reactant_index = reactants_index[0]
+                    new._reactant_index = (phases_index[0], reactants_index[0])
                 else:
                     raise ValueError('must pass reactant when multiple reactants are involved')
             else:
                 reactants_index, = new._stoichiometry.positive_index()
                 N_reactants = len(reactants_index)
                 if N_reactants == 1:
-                    self._reactant_index = reactants_index[0]
+                    new._reactant_index = reactants_index[0]
                 else:
                     raise ValueError('must pass reactant when multiple reactants are involved')
+        elif new._phases:
+            reactant_index = new.chemicals.index(reactant)
+            for phase_index, x in enumerate(new._stoichiometry[:, reactant_index]):
+                if x: break
+            new._reactant_index = (phase_index, reactant_index)
         else:
             new._reactant_index = new.chemicals.index(reactant)
         if X is not None: new.X = X
